@@ -20,15 +20,17 @@ Fixpoint silent (t : tree) : bool :=
 Definition opt_b (f : tree -> bool) (o : option tree) : bool :=
   match o with Some t => f t | None => false end.
 
-(* C05-K1: some pending body (conditional arm, right operand of && / ||, body of
-   a nested expression) is an empty group: when the instruction in front of it
-   equals its end instruction the end instruction is elided and the body's jump
-   entry points past the stream or at the next body *)
+(* C05-K1: the body of a nested expression compiles to nothing: its end
+   instruction, EndExpression, equals the instruction in front of it (every
+   body ends in EndExpression or JumpTo, and the body emitted just before a
+   nested body may end in EndExpression), is elided, and the expression's jump
+   entry points past the stream or at the next body.  (Conditional arms and
+   right operands of && / || end in JumpTo, which is never elided.) *)
 Fixpoint has_empty_body (t : tree) : bool :=
   match t with
   | T _ d l r =>
     (match kind_of d with
-     | KLogical _ | KJumpIf _ | KNested => opt_b silent r
+     | KNested => opt_b silent r
      | _ => false
      end)
     || opt_b has_empty_body l || opt_b has_empty_body r
